@@ -29,9 +29,10 @@ F32Round(v) == IF v < 16777216 THEN v
                     ELSE IF 2 * r < m THEN b
                     ELSE IF ((b \div m) % 2) = 0 THEN b ELSE b + m
 
-Unbounded(tm) == tm.rep = -2 \/ tm.rep = -3      \* never over inside any modelled horizon
+BIGREP == 1000000
+Unbounded(tm) == tm.rep = -2 \/ tm.rep = -3 \/ tm.rep >= BIGREP   \* never over inside any modelled horizon
 Cycles(tm) == IF tm.rep = -1 THEN 1 ELSE tm.rep + 1          \* repeats + 1 (finite)
-Total(tm)  == IF tm.rep = -2 THEN INF ELSE IF tm.rep = -3 THEN HUGE ELSE tm.del + tm.cyc * Cycles(tm)
+Total(tm)  == IF tm.rep = -2 THEN INF ELSE IF tm.rep = -3 \/ tm.rep >= BIGREP THEN HUGE ELSE tm.del + tm.cyc * Cycles(tm)
 
 \* --- implementation-shaped (time_scale.rs get_position) -------------------
 PhaseImpl(tm, t) ==
@@ -49,7 +50,7 @@ PhaseImpl(tm, t) ==
              ELSE [k |-> "act", pn |-> ct[1], pd |-> C, rp |-> ct[2], rv |-> FALSE]
   IN IF x < 0 THEN [k |-> "pre", pn |-> 0, pd |-> 1, rp |-> FALSE, rv |-> FALSE]
      ELSE IF tm.rep = -1 /\ x > C THEN ended
-     ELSE IF tm.rep >= 0 /\ x > C * (tm.rep + 1) THEN ended
+     ELSE IF tm.rep >= 0 /\ tm.rep < BIGREP /\ x > C * (tm.rep + 1) THEN ended
      ELSE act
 
 \* prepare_frame: (position, use start override)
